@@ -562,7 +562,7 @@ func (e *Engine) GenOp(r *core.Rand, m *Model, hostile bool) Op {
 		if m.Upgrade && isChild(store) && r.P(0.25) {
 			// over an existing entity that has no data in this child store (explicit nulls: the payload replaces the parent part)
 			for _, id := range e.existing(m, Emps) {
-				if _, has := m.Ents[Emps][id].Child[store]; !has && r.P(0.5) {
+				if _, has := m.Ents[Emps][id].Child[store]; !has && r.P(0.5) && !(m.UpgradePlainOnly && len(m.Ents[Emps][id].Child) > 0) {
 					op.Id, op.Nil = id, false
 					break
 				}
